@@ -37,6 +37,7 @@ mod linecol;
 mod readers;
 #[cfg(feature = "rv")]
 mod c10raw;
+mod anynum;
 
 fn main() {
     let args: Vec<String> = std::env::args().collect();
@@ -61,8 +62,12 @@ fn main() {
         "C09" => { c01::run(&mut sink, prop, thorough, seed); typed::run_tt3(&mut sink, thorough, seed); streamraw::run_c09(&mut sink, thorough, seed); }
         "C20" => {
             // number-alphabet strings for Number::from_str + accessors, typed targets, whole documents, verbatim text
+            // (a build without arbitrary_precision is the "without the feature" side of op anynum: the number-level ops only)
+            if !cfg!(feature = "ap") { c06::number_near_misses(&mut sink, thorough, seed); anynum::run(&mut sink, thorough, seed); sink.finish(stats); return; }
             c06::run(&mut sink, thorough, seed);
             c06::exhaustive_number_alphabet(&mut sink, thorough);
+            c06::number_near_misses(&mut sink, thorough, seed);
+            anynum::run(&mut sink, thorough, seed);
             c01::run(&mut sink, prop, thorough, seed);
             #[cfg(feature = "ap")]
             c20::run(&mut sink, thorough, seed);
@@ -170,6 +175,7 @@ fn replay(sink: &mut common::Sink, toks: &[&str]) {
         "lc3" | "lcs" => linecol::replay(sink, toks),
         "rd" | "rs" => readers::replay(sink, toks),
         "rsa" => readers::replay(sink, toks),
+        "anynum" => anynum::replay(sink, toks),
         _ => eprintln!("cannot replay op {}", toks[0]),
     }
 }
